@@ -121,6 +121,13 @@ func hasBraceCloseTagShape(root ast.Vertex) bool {
 		if nop, ok := n.(*ast.StmtNop); ok && isCloseTagTok(nop.SemiColonTkn) {
 			found = true
 		}
+		// the same with the separator of a case: "case 1 ?>text" becomes "case 1:?>text"
+		if c, ok := n.(*ast.StmtCase); ok && isCloseTagTok(c.CaseSeparatorTkn) {
+			found = true
+		}
+		if c, ok := n.(*ast.StmtDefault); ok && isCloseTagTok(c.CaseSeparatorTkn) {
+			found = true
+		}
 		if s := astx.SchemaOf(n); s != nil {
 			rv := reflect.ValueOf(n).Elem()
 			colon, semi := rv.FieldByName("ColonTkn"), rv.FieldByName("SemiColonTkn")
